@@ -43,6 +43,67 @@ pub fn cases_for_shard(total: u64, shard: u64, nshards: u64) -> u64 {
     total / nshards + if shard < total % nshards { 1 } else { 0 }
 }
 
+fn reason_key(r: &str) -> String {
+    r.chars().filter(|c| !c.is_ascii_digit()).collect()
+}
+
+/// ddmin-style reduction of a failing input: delete chunks, then zero octets, as long as the property's own
+/// concrete-case oracle keeps failing with the same reason (digits ignored). Bounded work.
+fn minimise_input(def: &PropDef, input: Vec<u8>, reason: &str, cx: &mut Cx) -> Option<(Vec<u8>, Failure)> {
+    let key = reason_key(reason);
+    let mut last: Option<Failure> = None;
+    let mut fails = |b: &[u8], cx: &mut Cx| -> bool {
+        match (def.run_concrete)(&json!({"input": hex(b)}), cx) {
+            Err(f) if reason_key(&f.reason) == key => {
+                last = Some(f);
+                true
+            }
+            _ => false,
+        }
+    };
+    if !fails(&input, cx) {
+        return None;
+    }
+    let mut cur = input;
+    let mut budget = 4000u32;
+    let mut n = (cur.len() / 2).max(1);
+    loop {
+        let mut i = 0;
+        while i + n <= cur.len() && budget > 0 {
+            let mut cand = cur.clone();
+            cand.drain(i..i + n);
+            budget -= 1;
+            if fails(&cand, cx) {
+                cur = cand;
+            } else {
+                i += n;
+            }
+        }
+        if n == 1 || budget == 0 {
+            break;
+        }
+        n /= 2;
+    }
+    for i in 0..cur.len() {
+        if budget == 0 {
+            break;
+        }
+        if cur[i] != 0 {
+            let mut cand = cur.clone();
+            cand[i] = 0;
+            budget -= 1;
+            if fails(&cand, cx) {
+                cur = cand;
+            }
+        }
+    }
+    // make sure `last` belongs to the final input
+    if !fails(&cur, cx) {
+        return None;
+    }
+    last.map(|f| (cur, f))
+}
+
 fn failure_json(part: &str, kind: &str, payload: Value, f: &Failure) -> Value {
     json!({"part": part, "kind": kind, "case": payload, "reason": f.reason, "rendered": f.rendered, "sig": f.sig, "profile": Cx::profile()})
 }
@@ -117,7 +178,16 @@ pub fn run_shard(a: ShardArgs) -> i32 {
                             Err(f) => f,
                             Ok(()) => first_fail.borrow().clone().unwrap_or(Failure { reason: "failure did not reproduce on the shrunk tape".into(), rendered: Value::Null, sig: None }),
                         };
-                        failures.push(failure_json(part.name, "tape", json!({"tape": hex(&tape)}), &f));
+                        // second stage for byte-input properties: minimise the concrete octets while the same oracle still fails
+                        let mut fj = failure_json(part.name, "tape", json!({"tape": hex(&tape)}), &f);
+                        if let Some(input) = f.rendered.get("input").and_then(|x| x.as_str()).and_then(unhex) {
+                            if let Some((small, f2)) = minimise_input(def, input, &f.reason, &mut c) {
+                                let mut cj = failure_json(part.name, "concrete", json!({"input": hex(&small)}), &f2);
+                                cj["found_as"] = json!({"kind": "tape", "part": part.name, "tape": hex(&tape), "reason": f.reason});
+                                fj = cj;
+                            }
+                        }
+                        failures.push(fj);
                         break 'parts;
                     }
                     Err(TestError::Abort(why)) => {
